@@ -113,6 +113,14 @@ pub(super) fn latest_timestamp_file(
             .map(|path| ts_infix_from_path(&path, &config.file_spec))
             // parse infix as date, ignore all infixes where this fails
             .filter_map(|infix| timestamp_from_ts_infix(&infix, fmt).ok())
+            // with use_utc the infix was written as UTC
+            .map(|ts| {
+                if config.use_utc {
+                    DateTime::<chrono::Local>::from(ts.naive_local().and_utc())
+                } else {
+                    ts
+                }
+            })
             // take the newest of these dates
             .reduce(|acc, e| if acc > e { acc } else { e })
             // if nothing is found, take Local::now()
